@@ -5,21 +5,25 @@ from vlib import core
 LEVEL = "proof"
 MANIFEST = dict(
     cat="proof",
-    tech="Coq proof (induction on the remaining depth, intersection lemma) that the algorithm model of expansion() on tries builds exactly "
-         "the flag complex with the maximal edge values and the exact dimension, and that the Rips builders are this construction on the "
-         "threshold graph + differential correspondence of all three routes (expansion, expansion_with_blockers, insert_edge_as_flag) and of "
-         "Rips_complex with the extracted models and with the specification (flag complex / blocked flag complex) after every operation",
-    text="Coq theorems for every finite weighted graph (arbitrary labels, ties, isolated vertices) and every max_dim: the trie produced by the "
-         "transcribed insert_graph + siblings_expansion/create_expansion/intersection is well formed and holds exactly the cliques with at most "
-         "max_dim+1 vertices, each with the largest value among its edges (= among its vertices and edges when no edge is below its end points); "
-         "dimension() afterwards is the exact dimension; Rips_complex (points or distance matrix) is this on the graph of pairs within the "
-         "threshold.  The blocker route and the edge-by-edge route are transcribed as algorithm models and compared with the C++ and with the "
-         "specification (largest subcomplex closed under 'kept iff not blocked and all facets kept'; flag complex of the edges inserted so "
-         "far; added_simplices = difference of consecutive dumps) on every generated input, under every option set that compiles.",
-    note="Trusted: Coq kernel, extraction + OCaml driver, the hand transcription of Simplex_tree.h / Rips_complex.h (validated by the "
-         "differential run), g++, harness.  Not proved (compared per run, kept as *_full statements): maximality under blockers, "
-         "edge-by-edge = flag complex.  make_filtration_non_decreasing is modelled at specification level (C03).  Recorded finding: "
-         "max_dim <= 0 leaves the edges of the graph in place.",
+    tech="Coq proofs about the transcribed algorithms on tries: expansion() (induction on the remaining depth, intersection lemma) and "
+         "expansion_with_blockers() (Hoare-style invariants of the reverse sibling loops with face look-ups in the tree under construction) "
+         "build exactly the flag complex / the largest blocker-free subcomplex, with the maximal edge values; Rips = this on the threshold graph "
+         "+ differential correspondence of all three routes (expansion, expansion_with_blockers, insert_edge_as_flag) and of Rips_complex with the "
+         "extracted models and with the independent specifications after every operation, under every option set that compiles",
+    text="Coq theorems for every finite weighted graph (arbitrary labels, ties, isolated vertices, parallel edges) and every max_dim >= 1: the trie "
+         "produced by the transcribed insert_graph + siblings_expansion/create_expansion/intersection is well formed and holds exactly the cliques "
+         "with at most max_dim+1 vertices, each with the largest value among its edges (= among its vertices and edges when no edge is below its end "
+         "points; proved to be the least upper bound); dimension() afterwards is the exact dimension; the transcribed expansion_with_blockers yields, "
+         "for every deterministic blocker predicate, the largest subcomplex of that clique complex without blocked simplex (never-blocking: the "
+         "expansion itself); Rips_complex (points or distance matrix) is this construction on the graph of pairs within the threshold (= sets of "
+         "diameter <= threshold, value = diameter).  The edge-by-edge route (insert_edge_as_flag in filtration order, or any admissible order + "
+         "make_filtration_non_decreasing) is transcribed and compared with the C++ and with the flag complex of the edges inserted so far on every "
+         "generated history; added_simplices is compared with the difference of consecutive dumps.",
+    note="Trusted: Coq kernel, extraction + OCaml driver, the hand transcription of Simplex_tree.h / Rips_complex.h (validated by the differential "
+         "run), g++, harness, coq/Simplex.v + Trie.v + basic lemmas of C01_Proofs.v.  Not proved (compared per run, kept as *_full statements): "
+         "edge-by-edge = flag complex; the dimension_ counter of the blocker route.  make_filtration_non_decreasing is modelled at specification "
+         "level (C03).  Repaired: expansion_with_blockers(max_dim <= 0) expanded without bound.  Recorded finding: max_dim <= 0 leaves the edges "
+         "of the graph in place (one-shot routes).",
     ref="design/C04.md")
 CORRESPONDENCE = ("coq/C04_Model.v (extracted: ocaml/c04_oracle.ml) vs harness/c04_drv.cpp on identical inputs: full dump (every simplex with value, "
                   "dimension(), upper_bound_dimension(), num_vertices(), num_simplices()), added_simplices, blocker call log, after every operation")
@@ -202,7 +206,7 @@ def gen_cases(rng, tier, k):
     contig = k in CONTIG
     zero = k == 2
     cases = []
-    ng = 900 if thorough else 220
+    ng = 3000 if thorough else 220
     for _ in range(ng):                          # one-shot expansion
         v, e = gen_graph(rng, contig, zero)
         d = rng.choice([0, 1, 2, 2, 3, 3, 4, 5, 6, 6])
@@ -214,7 +218,7 @@ def gen_cases(rng, tier, k):
     for _ in range(ng // 2):                     # Rips
         cases.append(([gen_rips(rng, zero)], "rips"))
     if k in LINKED:
-        for _ in range(160 if thorough else 40):
+        for _ in range(500 if thorough else 40):
             v, e = gen_graph(rng, contig, zero, nmax=8)
             d = rng.choice([-1, 0, 1, 2, 2, 3, 3, 4, 6])
             for name, items in edge_orders(rng, v, e, contig, 6):
